@@ -4,11 +4,7 @@ import time
 import z3
 
 from . import values as V
-from .values import Unsupported, EngineSignal
-
-
-class LoopBound(EngineSignal):
-    pass
+from .values import Unsupported, EngineSignal, LoopBound
 
 
 class PathLimit(Unsupported):
@@ -27,6 +23,7 @@ class Ctx:
         self.solver.set("timeout", timeout_ms)
         self.timeout_ms = timeout_ms
         self.loop_bound = loop_bound
+        self.concrete_loop_bound = 1000000
         self.iters = 0
         self.subst = {}  # pinned symbolic sizes: sexpr -> int
         self.writes = []  # (obj, kind, key) for every store performed by the interpreter
@@ -155,7 +152,7 @@ class Ctx:
         return v
 
 
-def explore(fn, max_paths=20000, timeout_ms=10000, loop_bound=100000, on_path=None, deadline=None):
+def explore(fn, max_paths=20000, timeout_ms=10000, loop_bound=100000, on_path=None, deadline=None, truncate=None, concrete_loop_bound=None):
     """fn(ctx) -> outcome.  Enumerates every feasible path.  Returns list of (ctx, kind, value) with kind in
     'return' | 'raise' | 'loopbound'.  EngineSignals (Unsupported ...) propagate."""
     stack = [[]]
@@ -163,6 +160,8 @@ def explore(fn, max_paths=20000, timeout_ms=10000, loop_bound=100000, on_path=No
     while stack:
         prefix = stack.pop()
         ctx = Ctx(prefix, timeout_ms=timeout_ms, loop_bound=loop_bound)
+        if concrete_loop_bound is not None:
+            ctx.concrete_loop_bound = concrete_loop_bound
         V.CUR = ctx
         try:
             try:
@@ -185,8 +184,11 @@ def explore(fn, max_paths=20000, timeout_ms=10000, loop_bound=100000, on_path=No
             choice, forced = ctx.log[i]
             if not forced:
                 stack.append(ctx.log[:i] + [(not choice, False)])
-        if len(out) > max_paths:
-            raise PathLimit("more than %d paths" % max_paths)
-        if deadline is not None and time.time() > deadline:
-            raise PathLimit("path exploration exceeded its time budget")
+        if len(out) > max_paths or (deadline is not None and time.time() > deadline):
+            why = "more than %d paths" % max_paths if len(out) > max_paths else "path exploration exceeded its time budget"
+            if truncate is not None and stack:
+                truncate.append("%s: stopped after %d paths with %d branches unexplored" % (why, len(out), len(stack)))
+                return out
+            if stack:
+                raise PathLimit(why)
     return out
